@@ -454,3 +454,38 @@ def rename_main(args: Any) -> int:
         with open(out, "w") as f:
             json.dump({"renames": len(res), "false_alarms": bad, "undecided": und}, f, indent=1)
     return 0 if not bad else 2
+
+
+def rename_summary_for(pid: str, args: Any) -> Dict[str, Any]:
+    """Thorough tier: rename fuzz restricted to one property's consulted functions (informational)."""
+    jobs = rename_jobs(args.repo, pid)
+    with ProcessPoolExecutor(max_workers=max(1, min(getattr(args, "jobs", 16), 16))) as ex:
+        res = list(ex.map(_rename_one, [(args.repo, j) for j in jobs], chunksize=4))
+    bad = [r for r in res if r["result"] == "FALSE-ALARM"]
+    und = [r for r in res if r["result"] == "undecided"]
+    return {"renames": len(res), "ok": sum(1 for r in res if r["result"] == "ok"), "false_alarms": [f"{r['local']} in {r['fn']}: {r['fired']}" for r in bad],
+            "undecided": [f"{r['local']} in {r['fn']}" for r in und], "summary": f"{len(res)} local renames, {len(bad)} false alarms, {len(und)} undecided"}
+
+
+def regression_replay_for(pid: str, args: Any) -> Dict[str, Any]:
+    """Thorough tier: for every repaired finding of this property, the revision just before its fix commit must show
+    the recorded (rule, construct) as VIOLATED under TODAY's checker (the fix is what made it disappear)."""
+    from .report import KNOWN_FILE
+
+    with open(KNOWN_FILE) as f:
+        entries = [e for e in json.load(f)["findings"] if e.get("status") == "fixed" and e.get("property") == pid and e.get("regression_witness")]
+    out: List[Dict[str, Any]] = []
+    for e in entries:
+        rec: Dict[str, Any] = {"finding": e["id"], "fix_commit": e["commit"], "witnesses": len(e["regression_witness"])}
+        try:
+            proj = Project.from_git(e["commit"] + "~1", args.repo)
+            mod = importlib.import_module(f"djc_sa.rules.{pid}")
+            code, chk = run_guarded(pid, "quick", 0, lambda c: mod.run(c, proj), quiet=True, write=False)
+            v = {(o.rule, o.construct) for o in chk.obls if o.verdict == "VIOLATED"}
+            missing = [w for w in e["regression_witness"] if (w["rule"], w["construct"]) not in v]
+            rec.update({"exit_before_fix": code, "reported_before_fix": len(e["regression_witness"]) - len(missing), "missing": missing, "result": "ok" if not missing and code == 1 else "FAILED"})
+        except Exception as ex:
+            rec.update({"result": "skipped", "why": f"{type(ex).__name__}: {ex}"})
+        out.append(rec)
+    ok = sum(1 for r in out if r["result"] == "ok")
+    return {"summary": f"{ok}/{len(out)} repaired findings are reported again on the revision before their fix", "replays": out}
